@@ -5,6 +5,9 @@ import CoapVerif.Lemmas.ObserveAbsent
 import CoapVerif.Lemmas.ObserveWake
 import CoapVerif.Lemmas.ObserveVer
 import CoapVerif.Lemmas.ObserveStale
+import CoapVerif.Lemmas.ObserveKey
+import CoapVerif.Lemmas.ObserveCon
+import CoapVerif.Lemmas.ObserveFrame
 /-
 C11 — Observe: registered observers get fresh, ordered notifications until cancelled.
 Property theorems about M (CoapVerif/Model/Observe.lean), which T2 ties to the compiled libcoap on every run.
@@ -957,5 +960,188 @@ theorem fair_step_decreases_stale (st0 : State) (evs : List Event) (ms : Nat) (h
 example : staleOf 0 ackedSt = 1 ∧ staleOf 0 (io ackedSt).1 = 0 := by decide
 example : staleOf 0 (run runStart lateEvents).1 = 1 ∧ staleOf 0 (run runStart (lateEvents ++ [.ack 0 1000])).1 = 0 := by decide
 
+/-! ### GLOBAL: what an observation IS — the cache key of the registration request (Model/ObserveKey.lean)
+`Event.reg c r tok key …` carries the key; the driver computes it as `obsKey (options of the request)`, the transcription of
+coap_cache_derive_key_w_ignore(session, request, SESSION_BASED, {ETag, OSCORE}).  RFC 7641 3.3/3.6: ETag options are not part
+of the observation's identity (a client re-registers to update the ETags it holds); RFC 7252 5.4.2: nor are NoCacheKey
+options; RFC 7641 2: nor is Observe itself. -/
+
+/-- which options are left out: ETag, OSCORE, Observe, and the NoCacheKey class (Size1 = 60, 28 = Size2, …); Uri-Path, Uri-Query,
+    Uri-Host, Accept, … are part of the identity -/
+theorem not_part_of_identity :
+    isCacheKey obsIgnore 4 = false ∧ isCacheKey obsIgnore 9 = false ∧ isCacheKey obsIgnore 6 = false ∧
+    isCacheKey obsIgnore 60 = false ∧ isCacheKey obsIgnore 28 = false ∧
+    isCacheKey obsIgnore 3 = true ∧ isCacheKey obsIgnore 11 = true ∧ isCacheKey obsIgnore 15 = true ∧ isCacheKey obsIgnore 17 = true := by
+  decide
+
+/-- an option that is not a cache-key option may be added, dropped or changed anywhere in the request: same observation -/
+theorem observation_identity_ignores (a b : List ReqOpt) (o : ReqOpt) (h : isCacheKey obsIgnore o.num = false) :
+    obsKey (a ++ o :: b) = obsKey (a ++ b) :=
+  obsKey_eq_of_cacheOpts_eq _ _ (cacheOpts_ignores obsIgnore a b o h)
+
+/-- in particular any ETag option, with any value, anywhere -/
+theorem observation_identity_ignores_etag (a b : List ReqOpt) (v : List Nat) :
+    obsKey (a ++ { num := 4, val := v } :: b) = obsKey (a ++ b) :=
+  observation_identity_ignores a b _ (show isCacheKey obsIgnore 4 = false by decide)
+
+/-- … and nothing else is forgotten: two requests have the same key exactly when their cache-key options (numbers, lengths,
+    values, order) are the same.  The direction → is the one that was FALSE before fix f201070 (the digest input did not
+    delimit the values; `digestInput_aliased_before_fix` below). -/
+theorem observation_identity_exact (a b : List ReqOpt) (ha : WfOpts a) (hb : WfOpts b) :
+    obsKey a = obsKey b ↔ cacheOpts obsIgnore a = cacheOpts obsIgnore b :=
+  obsKey_eq_iff a b ha hb
+
+/-- For ALL event sequences: no resource ever lists two entries of one session whose registration requests have the same
+    cache-key options — whatever their tokens and whatever ETag / NoCacheKey options they carried.  (A re-registration under a
+    new token with other ETags REPLACES the entry.) -/
+theorem reregistration_same_target_replaces (st : State) (evs : List Event) (h : NoDupSt st) :
+    ∀ y ∈ (run st evs).1.res, y.subs.Pairwise fun s1 s2 =>
+      s1.sess = s2.sess → ∀ o1 o2 : List ReqOpt, s1.key = obsKey o1 → s2.key = obsKey o2 →
+        cacheOpts obsIgnore o1 ≠ cacheOpts obsIgnore o2 := by
+  intro y hy
+  have h1 := reregistration_replaces st evs h y hy
+  rw [List.pairwise_map] at h1
+  refine h1.imp ?_
+  intro s1 s2 hd hs o1 o2 hk1 hk2 heq
+  have := (hd hs).2
+  apply this
+  show s1.key = s2.key
+  rw [hk1, hk2]
+  exact obsKey_eq_of_cacheOpts_eq o1 o2 heq
+
+/-- the other direction, one registration: a request for ANOTHER target (different cache-key options) removes nothing -/
+theorem registration_of_other_target_keeps (y : Res) (c tok m : Nat) (o2 : List ReqOpt) (h2 : WfOpts o2)
+    (h : ∀ s ∈ y.subs, s.sess = c → ∃ o1, WfOpts o1 ∧ s.key = obsKey o1 ∧ cacheOpts obsIgnore o1 ≠ cacheOpts obsIgnore o2) :
+    ∀ s ∈ y.subs, s ∈ (addToRes y c tok (obsKey o2) m).subs := by
+  intro s hs
+  unfold addToRes
+  split
+  · exact hs
+  · have hnone : y.subs.find? (matchSK c (obsKey o2)) = none := by
+      rw [List.find?_eq_none]
+      intro s' hs' hm
+      unfold matchSK at hm
+      simp only [Bool.and_eq_true, beq_iff_eq] at hm
+      obtain ⟨o1, w1, hk, hne⟩ := h s' hs' hm.1
+      exact hne ((obsKey_eq_iff o1 o2 w1 h2).mp (hk ▸ hm.2))
+    rw [hnone]
+    exact List.mem_cons_of_mem _ hs
+
+/-- witnesses.  GET /r0 Observe with token-independent options: (1) no ETag, (2) ETag 1122, (3) ETag 33 + Size1: one identity;
+    (4) ?a&b and (5) one Uri-Query option with the bytes 61 0f 00 62: two more, different from each other -/
+def wReq (extra : List ReqOpt) (query : List ReqOpt) (tail : List ReqOpt) : List ReqOpt :=
+  extra ++ [{ num := 6, val := [] }, { num := 11, val := [114, 48] }] ++ query ++ tail
+example : obsKey (wReq [] [] []) = obsKey (wReq [{ num := 4, val := [0x11, 0x22] }] [] []) ∧
+    obsKey (wReq [] [] []) = obsKey (wReq [{ num := 4, val := [0x33] }] [] [{ num := 60, val := [2] }]) := by decide
+example : obsKey (wReq [] [{ num := 15, val := [97] }, { num := 15, val := [98] }] []) ≠
+    obsKey (wReq [] [{ num := 15, val := [97, 15, 0, 98] }] []) ∧
+    obsKey (wReq [] [] []) ≠ obsKey (wReq [] [{ num := 15, val := [97] }, { num := 15, val := [98] }] []) := by decide
+example : WfOpts (wReq [{ num := 4, val := [0x33] }] [{ num := 15, val := [97, 15, 0, 98] }] [{ num := 60, val := [2] }]) := by
+  intro o ho
+  simp only [wReq, List.cons_append, List.nil_append, List.mem_cons, List.not_mem_nil, or_false] at ho
+  rcases ho with rfl | rfl | rfl | rfl | rfl <;> refine ⟨by decide, by decide, ?_⟩ <;> intro b hb <;> simp at hb <;> omega
+
+/-- the defect fixed by f201070, as a decided witness: WITHOUT the length the two different requests (4), (5) feed the same
+    bytes into the digest (`0f 00 61 0f 00 62` after the Uri-Path), so registering one replaced the same client's observation of
+    the other.  Replay: `obs st=30 R=d0 C=1 reg:0:0:1:4:C:1 reg:0:0:2:3:C:2 chg:0 io` -/
+def digestNoLength : List ReqOpt → List Nat
+  | [] => []
+  | o :: rest => if isCacheKey obsIgnore o.num then le16 o.num ++ o.val ++ digestNoLength rest else digestNoLength rest
+theorem digestInput_aliased_before_fix :
+    digestNoLength (wReq [] [{ num := 15, val := [97] }, { num := 15, val := [98] }] []) =
+      digestNoLength (wReq [] [{ num := 15, val := [97, 15, 0, 98] }] []) ∧
+    digestInput obsIgnore (wReq [] [{ num := 15, val := [97] }, { num := 15, val := [98] }] []) ≠
+      digestInput obsIgnore (wReq [] [{ num := 15, val := [97, 15, 0, 98] }] []) := by decide
+
+/-! ### GLOBAL: NSTART bookkeeping — `con_active` says "busy" exactly while a Confirmable is outstanding -/
+
+/-- For ALL event sequences: in every reachable state the session's `con_active` equals the number of its Confirmable
+    notifications in the retransmission queue (0 without session object).  Hence no event of ANOTHER client (Reset, give-up,
+    cancellation — with whatever token values, equal ones included) can leave a session "busy" with nothing outstanding. -/
+theorem con_active_eq_queued (st : State) (evs : List Event) (hid : IdsNodup st) (hr : RefInv st) (hc : ConInv st) :
+    ∀ c, (getSess (run st evs).1 c).conActive = nodesOf (run st evs).1 c :=
+  run_conInv st evs hid hr hc
+
+theorem con_active_eq_queued_init (res : List Res) (stTicks : Nat) (evs : List Event) (hids : (res.map (·.id)).Nodup)
+    (h : ∀ y ∈ res, y.subs = []) :
+    ∀ c, (getSess (run (init res stTicks) evs).1 c).conActive = nodesOf (run (init res stTicks) evs).1 c :=
+  run_conInv _ evs hids (init_refInv res stTicks h) (init_conInv res stTicks)
+
+/-- frame of coap_cancel_all_messages(context, session c, token): every other session keeps its counter and its queued
+    notifications, whatever their tokens -/
+theorem cancel_leaves_other_sessions (st : State) (c tok c' : Nat) (hc : c' ≠ c) :
+    (cancelAllMessages st c tok).sess c' = st.sess c' ∧
+    (cancelAllMessages st c tok).sendq.filter (fun q => q.sess == c') = st.sendq.filter (fun q => q.sess == c') :=
+  cancelAllMessages_other st c tok c' hc
+
+/-- `latest_eventually_notified_first_stale` with the fairness hypothesis stated on what is OBSERVABLE — fewer than NSTART
+    Confirmable notifications of the session are unacknowledged (still in the retransmission queue) — instead of on the
+    session's counter: after ANY run from a state satisfying the invariants, the I/O step tells the first stale entry of such a
+    session the resource's latest state. -/
+theorem latest_eventually_notified_when_acknowledged (st0 : State) (evs : List Event) (ms : Nat) (hid : IdsNodup st0) (hw : Wake st0)
+    (hr : RefInv st0) (hc : ConInv st0)
+    (pre post : List Res) (y : Res) (spre spost : List Sub) (o : Sub)
+    (hres : (run st0 evs).1.res = pre ++ y :: post) (hsubs : y.subs = spre ++ o :: spost)
+    (hal : y.alive = true) (herr : y.err = false) (hst : y.dirty = true ∨ o.dirty = true)
+    (hq : nodesOf (run st0 evs).1 o.sess < obsNstart)
+    (hpre : ∀ y1 ∈ pre, y1.alive = true → ∀ o1 ∈ y1.subs, o1.sess = o.sess → y1.dirty = false ∧ o1.dirty = false)
+    (hspre : ∀ o1 ∈ spre, o1.sess = o.sess → y.dirty = false ∧ o1.dirty = false) :
+    ∃ out ∈ (run st0 (evs ++ [.adv ms])).2, out.tag = .note ∧ out.c = o.sess ∧ out.token = o.token ∧ out.res = y.id ∧
+      out.code = 69 ∧ out.obs = some y.observe ∧ out.ver = y.ver :=
+  latest_eventually_notified_first_stale st0 evs ms hid hw pre post y spre spost o hres hsubs hal herr hst
+    (by rw [con_active_eq_queued st0 evs hid hr hc]; exact hq) hpre hspre
+
+/-- … and the progress measure: such a step strictly decreases the number of stale entries of the session -/
+theorem fair_step_decreases_stale_when_acknowledged (st0 : State) (evs : List Event) (ms : Nat) (hid : IdsNodup st0) (hw : Wake st0)
+    (hr : RefInv st0) (hc : ConInv st0)
+    (pre post : List Res) (y : Res) (spre spost : List Sub) (o : Sub)
+    (hres : (run st0 evs).1.res = pre ++ y :: post) (hsubs : y.subs = spre ++ o :: spost)
+    (hal : y.alive = true) (hst : y.dirty = true ∨ o.dirty = true)
+    (hq : nodesOf (run st0 evs).1 o.sess < obsNstart)
+    (hpre : ∀ y1 ∈ pre, y1.alive = true → ∀ o1 ∈ y1.subs, o1.sess = o.sess → y1.dirty = false ∧ o1.dirty = false)
+    (hspre : ∀ o1 ∈ spre, o1.sess = o.sess → y.dirty = false ∧ o1.dirty = false) :
+    staleOf o.sess (run st0 (evs ++ [.adv ms])).1 < staleOf o.sess (run st0 evs).1 :=
+  fair_step_decreases_stale st0 evs ms hid hw pre post y spre spost o hres hsubs hal hst
+    (by rw [con_active_eq_queued st0 evs hid hr hc]; exact hq) hpre hspre
+
+/-- witness: two clients observe the NOTIFY_CON resource 1 under the SAME token value 128; both have a Confirmable outstanding;
+    client 0 answers with a Reset, then client 1 acknowledges: client 1's counter is back to 0, nothing of it is queued, and the
+    next change reaches it (Observe 9) while client 0 gets nothing more -/
+def sharedTokenEvents : List Event :=
+  [.reg 0 1 128 0 true 1, .reg 1 1 128 0 true 1, .chg 1, .adv 0, .rst 0 1000, .ack 1 1000, .chg 1, .adv 0]
+example : (getSess (run runStart (sharedTokenEvents.take 4)).1 1).conActive = 1 ∧ nodesOf (run runStart (sharedTokenEvents.take 4)).1 1 = 1 ∧
+    (getSess (run runStart (sharedTokenEvents.take 5)).1 1).conActive = 1 ∧ nodesOf (run runStart (sharedTokenEvents.take 5)).1 1 = 1 ∧
+    (getSess (run runStart (sharedTokenEvents.take 6)).1 1).conActive = 0 ∧ nodesOf (run runStart (sharedTokenEvents.take 6)).1 1 = 0 := by
+  decide
+example : ((run runStart sharedTokenEvents).2.filter fun o => isNotif o).map (fun o => (o.c, o.token, o.obs)) =
+    [(1, 128, some 8), (0, 128, some 8), (1, 128, some 9)] := by decide
+example : ConInv runStart ∧ RefInv runStart := ⟨init_conInv _ _, init_refInv _ _ (by decide)⟩
+
+/-! ### what ends ONE client's observation leaves every OTHER client alone (Lemmas/ObserveFrame.lean)
+`viewOf c' st` = everything M holds about client c': its session object (ref, con_active, tx_mid, last_rx_tx), its queued
+Confirmable notifications, its observer entries on every resource (in list order, with all their fields). -/
+
+/-- a Reset from client c (coap_dispatch RST branch: coap_cancel over all resources, or the entry whose latest message id is
+    named) changes nothing about any other client c' — whatever the token values, equal ones included -/
+theorem reset_leaves_other_clients (st : State) (c mid c' : Nat) (hc : c' ≠ c) : viewOf c' (handleRst st c mid) = viewOf c' st :=
+  sameFor_handleRst st c mid c' hc
+
+/-- nor does giving up on a Confirmable notification to client c (coap_handle_failed_notify: coap_cancel_all_messages +
+    coap_delete_observer on every resource) -/
+theorem give_up_leaves_other_clients (st : State) (c tok c' : Nat) (hc : c' ≠ c) :
+    viewOf c' (handleFailedNotify st c tok) = viewOf c' st :=
+  sameFor_handleFailedNotify st c tok c' hc
+
+/-- nor does an ACK from client c -/
+theorem ack_leaves_other_clients (st : State) (c mid c' : Nat) (hc : c' ≠ c) : viewOf c' (handleAck st c mid) = viewOf c' st :=
+  sameFor_handleAck st c mid c' hc
+
+/-- witness (`sharedTokenEvents`): client 0's Reset removes client 0's entry and queued notification; client 1 — same token
+    value 128, same message id 2 — keeps entry, queued notification and counter -/
+def sharedSt : State := (run runStart (sharedTokenEvents.take 4)).1
+example : ((handleRst sharedSt 0 2).res.map fun y => y.subs.map fun s => (s.sess, s.token)) = [[], [(1, 128)]] ∧
+    (sharedSt.res.map fun y => y.subs.map fun s => (s.sess, s.token)) = [[], [(1, 128), (0, 128)]] ∧
+    ((handleRst sharedSt 0 2).sendq.map fun q => (q.sess, q.mid, q.token)) = [(1, 2, 128)] ∧
+    (sharedSt.sendq.map fun q => (q.sess, q.mid, q.token)) = [(1, 2, 128), (0, 2, 128)] := by decide
 
 end Coap.C11
